@@ -901,6 +901,13 @@ class Prov:
             if also:
                 for o in self._rec(fn, args[di], path, depth, _seen):
                     out.add(Origin(o.kind, o.key, o.path, o.via + (via,)))
+            if ci == 2:
+                # map_or(default, f) / map_or_else(default_fn, f): the default is a possible result too
+                if self._is_closure_arg(fn, args[1]):
+                    out |= self._closure_result(fn, args[1], path, depth, _seen, via)
+                else:
+                    for o in self._rec(fn, args[1], path, depth, _seen):
+                        out.add(Origin(o.kind, o.key, o.path, o.via + (via,)))
             return out
         if idx is not None:
             for i in idx:
